@@ -159,25 +159,78 @@ func structure(repo string) (string, error) {
 				continue
 			}
 			ifs, ok := inner.Body.List[0].(*ast.IfStmt)
-			if !ok || ifs.Else != nil || ifs.Init != nil || len(ifs.Body.List) != 1 {
+			if !ok || ifs.Else != nil || ifs.Init != nil || len(ifs.Body.List) == 0 {
 				continue
 			}
 			hopVar := exprString(inner.Value)
 			redactCond = strings.Replace(exprString(ifs.Cond), hopVar+".", "hop.", 1)
-			as, ok := ifs.Body.List[0].(*ast.AssignStmt)
-			if !ok || len(as.Rhs) != 1 {
+			// the fields of TracerouteHop (declaration order)
+			var allFields []string
+			ast.Inspect(f2, func(n ast.Node) bool {
+				ts, ok := n.(*ast.TypeSpec)
+				if ok && ts.Name.Name == "TracerouteHop" {
+					if st, ok := ts.Type.(*ast.StructType); ok {
+						for _, fl := range st.Fields.List {
+							for _, nm := range fl.Names {
+								allFields = append(allFields, nm.Name)
+							}
+						}
+					}
+				}
+				return true
+			})
+			kept := map[string]bool{}
+			understood := true
+			if as, ok := ifs.Body.List[0].(*ast.AssignStmt); ok && len(ifs.Body.List) == 1 && len(as.Rhs) == 1 {
+				// form 1: the slot is replaced by a fresh hop literal: every field not listed is cleared
+				var lit *ast.CompositeLit
+				if u, ok := as.Rhs[0].(*ast.UnaryExpr); ok {
+					lit, _ = u.X.(*ast.CompositeLit)
+				}
+				if lit != nil && exprString(lit.Type) == "TracerouteHop" {
+					for _, el := range lit.Elts {
+						if kv, ok := el.(*ast.KeyValueExpr); ok {
+							kept[exprString(kv.Key)] = true
+						}
+					}
+				} else {
+					understood = false
+				}
+			} else {
+				understood = false
+			}
+			if !understood {
+				// form 2: fields of the hop cleared one by one (hop.F = zero value): everything else is kept
+				understood = true
+				for _, f := range allFields {
+					kept[f] = true
+				}
+				for _, st := range ifs.Body.List {
+					as, ok := st.(*ast.AssignStmt)
+					if !ok || len(as.Lhs) != 1 || len(as.Rhs) != 1 {
+						understood = false
+						break
+					}
+					lhs := exprString(as.Lhs[0])
+					rhs := exprString(as.Rhs[0])
+					zero := rhs == "nil" || rhs == "0" || rhs == "false" || rhs == "0.0" || strings.HasSuffix(rhs, "{}")
+					if bl, ok := as.Rhs[0].(*ast.BasicLit); ok && (bl.Value == "0" || bl.Value == "0.0" || bl.Value == `""`) {
+						zero = true
+					}
+					i := strings.LastIndex(lhs, ".")
+					if i < 0 || !zero {
+						understood = false
+						break
+					}
+					delete(kept, lhs[i+1:])
+				}
+			}
+			if !understood {
 				continue
 			}
-			var lit *ast.CompositeLit
-			if u, ok := as.Rhs[0].(*ast.UnaryExpr); ok {
-				lit, _ = u.X.(*ast.CompositeLit)
-			}
-			if lit == nil || exprString(lit.Type) != "TracerouteHop" {
-				continue
-			}
-			for _, el := range lit.Elts {
-				if kv, ok := el.(*ast.KeyValueExpr); ok {
-					redactKept = append(redactKept, exprString(kv.Key))
+			for _, f := range allFields {
+				if kept[f] {
+					redactKept = append(redactKept, f)
 				}
 			}
 			redactShape = true
@@ -257,7 +310,13 @@ func structure(repo string) (string, error) {
 	fmt.Fprintf(&b, "\n(** RemovePrivateHops: both loops visit every run and every hop and the body is the single conditional replacement;\n    the condition is hop.IPAddress.IsPrivate(); the replacement keeps exactly the TTL *)\n")
 	fmt.Fprintf(&b, "Definition redact_visits_every_hop : bool := %v.\n", redactShape)
 	fmt.Fprintf(&b, "Definition redact_condition_is_private_address : bool := %v.\n", redactCond == "hop.IPAddress.IsPrivate()")
-	fmt.Fprintf(&b, "Definition redact_keeps_only_ttl : bool := %v.\n", len(redactKept) == 1 && redactKept[0] == "TTL")
+	keptBad := false
+	for _, f := range redactKept {
+		if f != "TTL" {
+			keptBad = true // anything but the TTL survives redaction: address, RTT, reachability, names, destination flag ...
+		}
+	}
+	fmt.Fprintf(&b, "Definition redact_keeps_only_ttl : bool := %v. (* fields of a redacted hop that keep their value: %s *)\n", redactShape && !keptBad && len(redactKept) == 1, strings.Join(redactKept, " "))
 	fmt.Fprintf(&b, "\n(** RunTraceroute: a failed multi-query run returns (nil, err); then, in this order, the post-processing steps with their guards *)\n")
 	fmt.Fprintf(&b, "Definition run_error_returns_no_result : bool := %v.\n", errNil)
 	fmt.Fprintf(&b, "Definition run_pipeline_order : list (pguard * pstep) := [%s].\n", strings.Join(pipe, "; "))
